@@ -31,6 +31,9 @@ Print Assumptions C03_nt_literal_scan.
    language-tag pattern, labels of the shape the reader's r_nodeid takes) plus "the IRI has a scheme"; pystr_triple says the
    strings are Python strings.  Both readers: unbounded buffer and the code's 2048-character buffer (any chunk size).
    Until fix commit 4d2427e4 this needed the extra hypothesis triple_readable (finding F15b, now repaired): *)
+(* The theorem returns the SAME blank-node labels that were written.  rdflib's reader hands out fresh BNodes per
+   document (W3CNTriplesParser._bnode_ids, modelled in C12); "up to renaming" is re-introduced by the harness, which maps
+   the fresh nodes back through that table before comparing - it is not part of this statement. *)
 Theorem C03_nt_roundtrip : forall n, (1 <= n)%nat -> forall t,
   wf_triple t = true -> pystr_triple t = true ->
   exists s, nt_row t = Some s /\ parse_doc s = Some [t] /\ parse_doc_buf n s = Some [t].
@@ -197,6 +200,10 @@ Print Assumptions C03_tl_spec_model.
    ns) are inputs: the theorem holds for EVERY plan, EVERY prefix table and EVERY prefixed-name decision that is
    consistent with the table (prefix declared, namespace ++ local = IRI, prefix and local free of blanks, commas and -
    for the prefix - colons).  The lexer finds exactly the writer's tokens ... *)
+(* NOTE on the reader: read_doc / lexs / run are a BESPOKE reader for the sub-language this writer emits; they are not a
+   model of rdflib/plugins/parsers/notation3.py.  notation3.py is tied to them per generated case only (suite ttl_stmt
+   compares rdflib's parse of the text with read_doc's triples); the plan and every prefixed-name decision are inputs
+   observed from the serialiser under test. *)
 Theorem C03_turtle_stmt_lexing : forall ns q pl, ns_ok ns = true -> q_ok ns q = true -> plan_ok pl = true ->
   lexs 0 (write_doc ns q pl) = toks_doc ns q pl.
 Proof. exact lex_doc. Qed.
@@ -216,10 +223,13 @@ Theorem C03_ts_spec_model_partial : forall c, ts_wf c = true ->
 Proof. exact ts_spec_model. Qed.
 Print Assumptions C03_ts_spec_model_partial.
 
-(* graph-level suite: no model; the checker only says "the round trip was fine" *)
-Theorem C03_rt_spec_model : forall c, rt_kf c = 0 -> rt_spec c (rt_model c) = true.
+(* GLUE, not an obligation: the graph-level round-trip suite is DIFFERENTIAL TESTING WITH A PYTHON ORACLE (isomorphism
+   search, trigger predicates and the residual comparison inside a trigger are all Python, harness/c03.py).  This lemma
+   only types that suite into the check pipeline (case = a trigger number, observation = 1 / 3 / 0); it says nothing
+   about rdflib, about any model of a serialiser or parser, or about the property. *)
+Theorem C03_rt_spec_glue : forall c, rt_kf c = 0 -> rt_spec c (rt_model c) = true.
 Proof. exact rt_spec_model. Qed.
-Print Assumptions C03_rt_spec_model.
+Print Assumptions C03_rt_spec_glue.
 
 (* the single-character tables probed from the source agree with the modelled writers *)
 Theorem C03_tables_agree :
